@@ -618,6 +618,65 @@ pub fn add_whitespace_run_sweep(p: &mut Plan, _q: bool) {
     p.bounds.push(format!("S2c whitespace runs: length 0..=40, patterns SP* / HTAB* / alternating / HTAB SP*, at {} positions (after the colon, before the line end, before the colon, before the first header, inside folds, request- and status-line delimiters, chunk size, message start), complete and cut inside the run", n));
 }
 
+/// Repetition counts: k = 0..=24 repetitions of a unit at the places where the grammars allow a
+/// unit to repeat (leading empty lines, fold continuation lines, ignored lines, header lines of one
+/// shape between two others), complete and cut after every repetition.
+pub fn add_repetition_sweep(p: &mut Plan, _q: bool) {
+    struct Rep {
+        entry: Entry,
+        cfg: u8,
+        pre: &'static [u8],
+        unit: &'static [u8],
+        post: &'static [u8],
+    }
+    let reps: Vec<Rep> = vec![
+        Rep { entry: Entry::ReqCfg, cfg: 0, pre: b"", unit: b"\r\n", post: b"GET / HTTP/1.1\r\nA: b\r\n\r\n" },
+        Rep { entry: Entry::ReqCfg, cfg: 0, pre: b"", unit: b"\n", post: b"GET / HTTP/1.1\n\n" },
+        Rep { entry: Entry::ReqCfg, cfg: 0, pre: b"", unit: b"\n\r\n", post: b"PUT /x HTTP/1.0\r\n\r\n" },
+        Rep { entry: Entry::RespCfg, cfg: 0, pre: b"", unit: b"\r\n", post: b"HTTP/1.1 200 OK\r\nA: b\r\n\r\n" },
+        Rep { entry: Entry::RespCfg, cfg: 0, pre: b"\n", unit: b"\r\n\n", post: b"HTTP/1.0 204\n\n" },
+        Rep { entry: Entry::RespCfg, cfg: C_FOLDING, pre: b"HTTP/1.1 200 OK\r\nF: a", unit: b"\r\n b", post: b"\r\nG: 1\r\n\r\n" },
+        Rep { entry: Entry::RespCfg, cfg: C_FOLDING, pre: b"HTTP/1.1 200 OK\r\nF: a", unit: b"\n\tb ", post: b"\n\n" },
+        Rep { entry: Entry::RespCfg, cfg: C_FOLDING, pre: b"HTTP/1.1 200 OK\r\nF: a", unit: b"\r\n ", post: b"\r\n\r\n" },
+        Rep { entry: Entry::RespCfg, cfg: C_FOLDING, pre: b"HTTP/1.1 200 OK\r\nF:", unit: b"\r\n\t", post: b"\r\n x\r\n\r\n" },
+        Rep { entry: Entry::RespCfg, cfg: C_FOLDING | C_IGNORE_RESP, pre: b"HTTP/1.1 200 OK\r\nF: a", unit: b"\r\n b", post: b"\x01\r\nG: 1\r\n\r\n" },
+        Rep { entry: Entry::RespCfg, cfg: C_IGNORE_RESP, pre: b"HTTP/1.1 200 OK\r\nA: 1\r\n", unit: b"bad line\r\n", post: b"B: 2\r\n\r\n" },
+        Rep { entry: Entry::ReqCfg, cfg: C_IGNORE_REQ, pre: b"GET / HTTP/1.1\r\n", unit: b": x\n", post: b"B: 2\n\n" },
+        Rep { entry: Entry::ReqCfg, cfg: C_IGNORE_REQ | C_SPACE_BEFORE_FIRST, pre: b"GET / HTTP/1.1\r\n", unit: b" (\r\n", post: b" B: 2\r\n\r\n" },
+        Rep { entry: Entry::Headers, cfg: 0, pre: b"First: 1\r\n", unit: b"M: mid\r\n", post: b"Last: 9\r\n\r\n" },
+        Rep { entry: Entry::ReqCfg, cfg: 0, pre: b"GET / HTTP/1.1\r\n", unit: b"E:\r\n", post: b"Last: 9\r\n\r\n" },
+        Rep { entry: Entry::Chunk, cfg: 0, pre: b"a", unit: b";x", post: b"\r\n" },
+    ];
+    let n = reps.len();
+    let mut tasks: Vec<TaskFn> = Vec::new();
+    for r in reps {
+        tasks.push(Box::new(move |ck: &mut Checker| {
+            let lane = Lane::new(r.entry, r.cfg, 32);
+            let mut buf = Vec::new();
+            for k in 0..=24usize {
+                buf.clear();
+                buf.extend_from_slice(r.pre);
+                for _ in 0..k {
+                    buf.extend_from_slice(r.unit);
+                }
+                let cut = buf.len();
+                buf.extend_from_slice(r.post);
+                one_shot(ck, &lane, &buf);
+                one_shot(ck, &lane, &buf[..cut]);
+                // cut inside the last repetition
+                for back in 1..r.unit.len().min(cut + 1) {
+                    one_shot(ck, &lane, &buf[..cut - back]);
+                }
+                if ck.full() {
+                    return;
+                }
+            }
+        }));
+    }
+    p.phases.push(Phase { label: format!("S2c: 0..=24 repetitions of a unit at {} places where the grammars repeat (empty lines, folds, ignored lines, header lines), complete and cut", n), backend: Backend::Native, tasks });
+    p.bounds.push(format!("S2c repetitions: k = 0..=24 at {} places (leading empty lines in CRLF / LF / mixed form, fold continuation lines with and without content, ignored lines, repeated header lines, chunk extensions), complete, cut after the k-th repetition and cut inside it", n));
+}
+
 /// UTF-8 in the request target: every sequence of <= 4 bytes over a boundary alphabet of UTF-8
 /// lead / continuation / ASCII bytes, after ASCII prefixes of several lengths (so that the
 /// sequence straddles 8/16/32-byte block boundaries) and before 0..2 more target bytes.
